@@ -350,6 +350,8 @@ def gen_audit_cell(rng, nmax):
     share = rng.choice((0.5, 0.25)) if kind == "supermajority" else None
     at = rng.choice(("CARD_COMPARISON", "CARD_COMPARISON", "ONEAUDIT"))
     test, estim, bet, kw = rng.choice(E.TESTS_FOR[at])
+    if bet == "fixed_bet" and share is not None:
+        kw = {"lam": min(0.5, share)}   # lambda <= 1/u for every u the audit can install (u <= 2 u_a = 1/f)
     true_votes = []
     # truth: b >= a (plurality) / a <= share of valid votes (super-majority)
     nb = rng.randint((n + 1) // 2, n)
@@ -401,6 +403,25 @@ def run_audit_cell(case, rec):
         c.sample_num = i
     con.sample_size = n
     con.sample_threshold = n
+    # The population handed to the test must be a null population *in the arithmetic the code itself uses* (DESIGN 3.2):
+    # overstatement-assorter values are rarely dyadic, and at the exact boundary mean = 1/2 a float total can exceed N t
+    # by an ulp on some orderings (the library then reports p = 0: rounding, not a refutation).  The cell is used only if
+    # the exact (rational) total of the float data is below N t by a margin rounding cannot bridge, or the data are
+    # dyadic and the total is exactly N t.
+    with np.errstate(all="ignore"):
+        ok, du = rec.guard("c01.audit.call:mvrs_to_data", asn.mvrs_to_data, mv, list(sim.cvr_list))
+    if not ok:
+        return
+    dvals = [float(v) for v in du[0]]
+    exact_total = sum(Fraction(v) for v in dvals)
+    Nt = Fraction(len(dvals)) * Fraction(asn.test.t)
+    dyadic = all((v * 2 ** 20).is_integer() for v in dvals)
+    if not (Nt - exact_total >= Fraction(1, 10 ** 9) or (exact_total == Nt and dyadic)):
+        rec.case(case, nontrivial=False)
+        rec.count("audit_cells_boundary_not_exactly_representable_skipped")
+        return
+    if exact_total == Nt:
+        rec.count("audit_cells_exact_boundary")
     sink = io.StringIO()
     qw, done_count, n_ord = [], 0, 0
     labels = [repr((sorted(sim.cvr_list[i].votes.get("con1", {}).items()), sorted((mv[i].votes.get("con1") or {}).items()), mv[i].phantom, sim.cvr_list[i].pool)) for i in range(n)]
